@@ -509,6 +509,15 @@ C20_SPECIAL = [
     ("stop_first_field_hash", "Hash", "pub struct X<T, U>(#[derive_ex(Hash(bound()))] pub ::core::marker::PhantomData<T>, pub U, pub ::core::option::Option<U>);"),
     ("stop_first_variant_copy", "Copy, Clone", "pub enum X<T, U> { #[derive_ex(Copy(bound()), Clone(bound()))] Marker(::core::marker::PhantomData<T>), Value(U), Pair(u8, U) }"),
     ("stop_first_field_copy", "Copy, Clone", "pub struct X<T, U>(#[derive_ex(Copy(bound()), Clone(bound()))] pub ::core::marker::PhantomData<T>, pub U, pub ::core::option::Option<U>);"),
+    ("raw_param_unsized_tail", "Debug, PartialEq, Eq, PartialOrd, Ord, Hash", "pub struct X<r#T: ?::core::marker::Sized>(pub u8, pub T);"),
+    ("raw_param_unsized_where", "Debug, PartialEq, Hash", "pub struct X<r#Match> where r#Match: ?::core::marker::Sized { pub a: u8, pub b: r#Match }"),
+    ("trait_object_fields", "Debug", "pub struct X<'a>(pub &'a (dyn ::core::fmt::Debug + Send), pub ::std::boxed::Box<dyn ::core::fmt::Debug + Send + 'a>, pub u8);"),
+    ("trait_object_tail", "Debug", "pub struct X(pub u8, pub dyn ::core::fmt::Debug + Send);"),
+    # known findings D19 / D20 (see known_findings.json)
+    ("deref_trait_object_field", "Deref, DerefMut", "pub struct X(pub dyn ::core::fmt::Debug);"),
+    ("deref_trait_object_field_multi", "Deref", "pub struct X(pub dyn ::core::fmt::Debug + Send);"),
+    ("packed_misaligned_fields", "Clone, Debug, PartialEq, Eq, PartialOrd, Ord, Hash", "#[repr(packed)] pub struct X(pub u32, pub u8);"),
+    ("packed_aligned_one", "Clone, Debug, PartialEq, Eq, PartialOrd, Ord, Hash, Default", "#[repr(packed)] pub struct X(pub u8, pub [u8; 3], pub bool);"),
     ("raw_idents", "Clone, Debug, Default, PartialEq, Eq, PartialOrd, Ord, Hash", "pub struct r#X<r#T> { pub r#type: r#T, pub r#fn: u8 }"),
     ("raw_enum", "Clone, Debug, PartialEq, Eq, PartialOrd, Ord, Hash", "pub enum X { r#match { r#loop: u8 }, r#type(u8), r#Self_ }"),
     ("local_names_fields", "Clone, Debug, Default, PartialEq, Eq, PartialOrd, Ord, Hash, Add, AddAssign, Neg", "pub struct X { pub this: i8, pub other: i8, pub state: i8, pub f: i8, pub rhs: i8, pub source: i8, pub lhs: i8, pub o: i8 }"),
